@@ -243,6 +243,13 @@ def r204_validator(ctx):
         xside = b if yside is a else a
         ok = (contains(yside, lambda s: s is P["y"]) and contains(xside, lambda s: s is P["X"])
               and all(x.op == "sub" and x.args[1] is const(0) for x in (a, b)))
+        # nothing else may guard the comparison except "a y was given"
+        xchk = [x for x in r.events if x.kind == "call" and x.data.get("callee") == "sklearn.utils.validation.check_array"
+                and x.data["args"] and x.data["args"][0] is P["X"]]
+        base = set(pc_literals(xchk[0].pc)) if xchk else set()
+        extra = [l for l in pc_literals(e.pc) if l not in base and l is not lit]
+        ok = ok and all(l.op == "cmp" and l.args[0] == "is not" and l.args[2] is NONE and contains(l.args[1], lambda s: s is P["y"])
+                        for l in extra)
     ctx.ob("R20.4", fq, rows[0].node if rows else None, ok, "X and y row counts are compared (shape[0] of each) and a "
            "mismatch raises", construct="guard: X/y rows")
     # missing sensitive feature
